@@ -416,8 +416,11 @@ func evalEntry(o *engine.Outcome, e *entry, ei, bi int, nowMs, subMsNs int64) {
 			if !got {
 				o.Violate("C15/expired-a-day-ago-not-reported/"+e.kind, "entry %d (%s): expiry %d ms, now %d ms (%.1f days later) but IsExpired()=false", ei, e.kind, e.expiryMs, nowMs, float64(diff)/dayMs)
 			}
+			// Whether Validate() also looks at the clock is the implementation's
+			// choice (the property speaks of what is *reported expired*, i.e. the
+			// IsExpired family); its answer is recorded, not judged.
 			if e.validate != nil && e.validate() == nil {
-				o.Violate("C15/validate-accepts-expired/"+e.kind, "entry %d (%s): expiry %d ms, now %d ms but Validate()=nil", ei, e.kind, e.expiryMs, nowMs)
+				o.Probe("validate_accepts_a_structure_that_expired_a_day_ago:" + e.kind)
 			}
 		case -diff >= dayMs && !(-diff == dayMs && subMsNs > 0):
 			o.Probe("judged_future_side")
@@ -426,7 +429,7 @@ func evalEntry(o *engine.Outcome, e *entry, ei, bi int, nowMs, subMsNs int64) {
 			}
 			if e.validate != nil {
 				if err := e.validate(); err != nil && err != errSkip {
-					o.Violate("C15/validate-rejects-future/"+e.kind, "entry %d (%s): expiry %d ms, now %d ms but Validate()=%v", ei, e.kind, e.expiryMs, nowMs, firstWord(err.Error()))
+					o.Probe("validate_rejects_a_structure_that_expires_in_a_day:" + e.kind)
 				}
 			}
 		default:
